@@ -13,6 +13,7 @@ open Tmd
 open Ncch
 open NcchFull
 open Romfs
+open Ncsd
 open Driver_base
 
 let opt f = function None -> "-" | Some x -> f x
@@ -202,6 +203,15 @@ let run_romfs toks =
      | Err e -> "e:" ^ err_name e)
   | _ -> failwith "romfs args"
 
+(* ncsd <0x100 header bytes>  ->  idx,offset,size ... | e:Err *)
+let run_ncsd toks =
+  match toks with
+  | [hdr] ->
+    (match ncsd_partitions (bytes_of_hex hdr) with
+     | Ok ps -> String.concat " " (Stdlib.List.map (fun ((i, o), s) -> hex_of_z i ^ "," ^ hex_of_z o ^ "," ^ hex_of_z s) ps)
+     | Err e -> "e:" ^ err_name e)
+  | _ -> failwith "ncsd args"
+
 let dispatch (line : string) : string =
   match String.split_on_char ' ' (String.trim line) with
   | "engine" :: toks -> run_engine toks
@@ -213,6 +223,7 @@ let dispatch (line : string) : string =
   | "ranges" :: toks -> run_ranges toks
   | "fulldec" :: toks -> run_fulldec toks
   | "romfs" :: toks -> run_romfs toks
+  | "ncsd" :: toks -> run_ncsd toks
   | e :: _ -> failwith ("unknown entry " ^ e)
   | [] -> ""
 
